@@ -113,6 +113,10 @@ def verdict (case impl : String) : String :=
     (match forbiddenIn (arg 1) (parseStr (arg 2)) with
      | none => "ok"
      | some c => "VIOLATED:enforced output contains " ++ hex4 c ++ " (" ++ (dp63 (arg 1 == "um" || arg 1 == "up") c).name ++ ")")
+  | "csvrow" | "csvfile" =>
+    -- the expectation is computed by the case generator from the structured row it rendered / corrupted
+    let e := arg 3
+    if e == "" || e == "any" then "n/a" else want impl e
   | "cls.id" => want impl (dp63 true (parseHex (arg 1))).name
   | "cls.ff" => want impl (dp63 false (parseHex (arg 1))).name
   | "hasrtl" => want impl (toString ((parseStr (arg 1)).any (fun c => isRtlTrigger (bidi16 c))))
